@@ -86,7 +86,7 @@ META = {
                      "histories_cyclic": 6500, "histories_directed": 200,
                      "multi_level_histories": 2500, "cyclic_nonmulti_probe_checks": 600000,
                      "object_form_registrations": 10000, "text_form_registrations": 10000,
-                     "reslice_ops": 1200, "multiplicity_change_events": 600, "const_default_reads": 600,
+                     "reslice_ops": 1200, "multiplicity_change_events": 300, "const_default_reads": 600,
                      "histories_multiplicity": 90, "histories_const_default": 80},
     },
     "assumptions": [
